@@ -110,16 +110,25 @@ Record level := mklevel {
   l_cfg : cfg;
   l_filt : filt;
   l_len : Z;                          (* len(ds) as cached in _length *)
-  l_data : list (option col)          (* scalar columns: the root's data, or
-                                         the ChildScalar arrays of a child *)
+  l_data : list (option col);         (* scalar columns: the root's data; for
+                                         a child the values its features had
+                                         at its last refresh (what the reads
+                                         inside that refresh returned) *)
+  l_cache : list (option col)         (* a child's `_events` cache: the
+                                         ChildScalar arrays computed so far,
+                                         per slot; None = not cached.  Filled
+                                         lazily by reads, emptied by
+                                         apply_filter.  Unused for the root *)
 }.
 
 Definition set_filt (l : level) (f : filt) : level :=
-  mklevel (l_cfg l) f (l_len l) (l_data l).
+  mklevel (l_cfg l) f (l_len l) (l_data l) (l_cache l).
 Definition set_cfg (l : level) (c : cfg) : level :=
-  mklevel c (l_filt l) (l_len l) (l_data l).
+  mklevel c (l_filt l) (l_len l) (l_data l) (l_cache l).
 Definition set_data (l : level) (d : list (option col)) : level :=
-  mklevel (l_cfg l) (l_filt l) (l_len l) d.
+  mklevel (l_cfg l) (l_filt l) (l_len l) d (l_cache l).
+Definition set_cache (l : level) (c : list (option col)) : level :=
+  mklevel (l_cfg l) (l_filt l) (l_len l) (l_data l) c.
 
 (* ---- Filter.update ------------------------------------------------------- *)
 Definition valid (v : fval) : bool := fst v =? 0.
@@ -184,10 +193,39 @@ Fixpoint and_valid (size : nat) (data : list (option col)) : list bool :=
   | None :: data' => and_valid size data'
   end.
 
+(* which features does Filter.update read (`rtdc_ds[feat]`)?  The box loop
+   reads a feature whose range must be (re)computed and is not degenerate;
+   "remove invalid events" reads every scalar feature *)
+Fixpoint reads_box (c : cfg) (old : option cfg) (data : list (option col))
+         (box : list (option (list bool))) (s : nat) : list bool :=
+  match box, data with
+  | b :: box', d :: data' =>
+      (match d, nth s (c_rng c) None with
+       | Some _, Some (lo, hi) =>
+           (key_changed c old s || match b with None => true | Some _ => false end)
+           && negb (lo =? hi)
+       | _, _ => false
+       end) :: reads_box c old data' box' (S s)
+  | _, _ => []
+  end.
+
+Fixpoint fill_reads (reads : list bool) (rminv : bool)
+         (data cache : list (option col)) : list (option col) :=
+  match data, cache with
+  | d :: data', x :: cache' =>
+      (match d with
+       | Some _ => if rminv || hd false reads then d else x
+       | None => x
+       end) :: fill_reads (tl reads) rminv data' cache'
+  | _, _ => cache
+  end.
+
 Definition filter_update (l : level) : level :=
   let f := l_filt l in
   let c := l_cfg l in
   let size := length (f_manual f) in
+  let l := set_cache l (fill_reads (reads_box c (f_old f) (l_data l) (f_box f) 0)
+                                   (c_rminv c) (l_data l) (l_cache l)) in
   let box := update_box c (f_old f) size (l_data l) (f_box f) 0 in
   let arr_box := and_boxes size box in
   let arr_inv := if c_rminv c then and_valid size (l_data l)
@@ -228,7 +266,8 @@ Definition child_finish (c p : level) : level :=
   let f' := if hash_eqb (parent_hash p) (f_phash f) then f
             else mk_filter p (f_mri (retrieve f)) in
   filter_update
-    (mklevel (l_cfg c) f' (Z.of_nat (count_true pall)) data).
+    (mklevel (l_cfg c) f' (Z.of_nat (count_true pall)) data
+             (repeat None NSLOT)).            (* self._events.clear() *)
 
 (* [ls] is youngest first; the root is the last element *)
 Fixpoint refresh_up (ls : list level) : list level :=
@@ -249,11 +288,63 @@ Definition new_child (p : level) : level :=
   let c := mkcfg (repeat None NSLOT) (c_enable (l_cfg p)) (c_rminv (l_cfg p)) in
   filter_update
     (mklevel c (mk_filter p []) (Z.of_nat (count_true pall))
-             (map (option_map (select pall)) (l_data p))).
+             (map (option_map (select pall)) (l_data p))
+             (repeat None NSLOT)).
+
+(* A read of a child's feature goes through the parent's feature object and
+   leaves its array cached there as well: after the refresh every ancestor
+   holds the arrays its descendants read during the refresh.  [acc] = slots
+   read below; the values are those of the refresh ([l_data]). *)
+Definition is_some {A} (o : option A) : bool :=
+  match o with Some _ => true | None => false end.
+
+Fixpoint fill_acc (acc : list bool) (data cache : list (option col))
+  : list (option col) :=
+  match data, cache with
+  | d :: data', x :: cache' =>
+      (match x with
+       | Some _ => x
+       | None => if hd false acc then d else None
+       end) :: fill_acc (tl acc) data' cache'
+  | _, _ => cache
+  end.
+
+Fixpoint propagate (acc : list bool) (ls : list level) : list level :=
+  match ls with
+  | [] => []
+  | l :: ps =>
+      let l' := set_cache l (fill_acc acc (l_data l) (l_cache l)) in
+      l' :: propagate (map is_some (l_cache l')) ps
+  end.
+
+(* RTDC_Hierarchy.apply_filter / rejuvenate with its effect on the caches *)
+Definition refresh (ls : list level) : list level := propagate [] (refresh_up ls).
+
+(* ds[feat][:] on the youngest member of [ls]: ChildScalar.__array__ *)
+Fixpoint read (ls : list level) (s : nat) : option col * list level :=
+  match ls with
+  | [] => (None, [])
+  | [root] => (nth s (l_data root) None, [root])
+  | c :: ps =>
+      match nth s (l_cache c) None with
+      | Some d => (Some d, ls)
+      | None =>
+          let '(v, ps') := read ps s in
+          match v, ps with
+          | Some pd, p :: _ =>
+              let d := select (f_all (l_filt p)) pd in
+              (Some d, set_cache c (set_nth s (Some d) (l_cache c)) :: ps')
+          | _, _ => (None, c :: ps')
+          end
+      end
+  end.
+
+Definition read_at (ls : list level) (pos s : nat) : option col * list level :=
+  let '(v, suf) := read (skipn pos ls) s in (v, firstn pos ls ++ suf).
 
 Definition grow (ls : list level) : list level :=
   match refresh_up ls with
-  | p :: ps => new_child p :: p :: ps
+  | p :: ps => propagate [] (new_child p :: p :: ps)
   | [] => []
   end.
 
@@ -331,7 +422,7 @@ Definition set_temp (ls : list level) (pos : nat) (slot : nat) (seed : Z)
           let ls1 := set_root_data ls slot full in
           match anc with
           | [] => (ls1, 0)                 (* not a hierarchy child *)
-          | _ => (firstn pos ls1 ++ refresh_up (skipn pos ls1), 0)
+          | _ => (firstn pos ls1 ++ refresh (skipn pos ls1), 0)
           end
       end
   end.
@@ -397,27 +488,60 @@ Definition image_ids (img : list Z) (anc : list level) (len : Z) : list Z :=
 Definition even_ids (n : nat) : list Z :=
   filter (fun r => r mod 2 =? 0) (iota 0 n).
 
+(* the scalar features of the dataset at position [pos], read one after the
+   other (slots s, s+1, ...) *)
+Fixpoint read_slots (ls : list level) (pos : nat) (s k : nat)
+  : list Z * list level :=
+  match k with
+  | O => ([], ls)
+  | S k' =>
+      let '(v, ls1) := read_at ls pos s in
+      let '(out, ls2) := read_slots ls1 pos (S s) k' in
+      (match v with
+       | Some d => [-8; Z.of_nat s] ++ enc_col d
+       | None => []
+       end ++ out, ls2)
+  end.
+
 Definition observe_level (img : list Z) (lvl : Z) (l : level)
-           (anc : list level) : list Z :=
+           (anc : list level) (cols : list Z) : list Z :=
   let f := l_filt l in
   [100 + lvl; l_len l] ++ enc_bools (f_all f) ++ [-7]
   ++ enc_bools (f_manual f) ++ [-7]
   ++ (match anc with [] => [] | _ => sort_uniq (f_mri f) end) ++ [-7]
-  ++ enc_data (l_data l) 0
+  ++ cols
   ++ [-8; 5] ++ flat_map (fun i => [0; i]) (image_ids img anc (l_len l))
   ++ (match anc with
       | [] => []
       | _ => [-9] ++ match c2r anc (iota 0 (Z.to_nat (l_len l))) with
                      | Some r => r | None => [-99] end
              ++ [-9] ++ r2c anc (even_ids (length img))
+             (* map_indices_child2parent / parent2child called directly with
+                unsorted indices containing a duplicate *)
+             ++ match anc with
+                | p :: _ =>
+                    let n := l_len l in
+                    let pn := l_len p in
+                    [-9] ++ match c2p p (if 0 <? n then [n - 1; 0; n - 1] else []) with
+                            | Some r => r | None => [-99] end
+                    ++ [-9] ++ p2c p (if 0 <? pn then [pn - 1; 0; pn - 1] else [])
+                | [] => []
+                end
       end).
 
-(* root first *)
-Fixpoint observe (img : list Z) (ls : list level) : list Z :=
-  match ls with
-  | [] => []
-  | l :: anc => observe img anc
-                ++ observe_level img (Z.of_nat (length anc)) l anc
+(* root first: positions k-1, ..., 0; every feature is read (and cached) *)
+Fixpoint observe (img : list Z) (ls : list level) (k : nat)
+  : list Z * list level :=
+  match k with
+  | O => ([], ls)
+  | S pos =>
+      let '(cols, ls1) := read_slots ls pos 0 NSLOT in
+      let out1 := match skipn pos ls1 with
+                  | l :: anc => observe_level img (Z.of_nat (length anc)) l anc cols
+                  | [] => []
+                  end in
+      let '(out2, ls2) := observe img ls1 pos in
+      (out1 ++ out2, ls2)
   end.
 
 (* op = (tag, a, b, c, d) *)
@@ -434,8 +558,17 @@ Definition step (st : state) (op : Z * Z * Z * Z * Z) : state * list Z :=
     let '(ls', e) := set_temp ls (pos_of ls a) (3 + Z.to_nat (b mod 2)) c in
     (mkstate ls' img, [2; e])
   else if tag =? 3 then
-    let ls' := refresh_up ls in
-    (mkstate ls' img, observe img ls')
+    (* a = 0: rejuvenate the youngest and read everything; a = 1: rejuvenate
+       only; a = 2: read feature c of level b without any refresh *)
+    if a =? 0 then
+      let '(out, ls') := observe img (refresh ls) (length ls) in
+      (mkstate ls' img, out)
+    else if a =? 1 then (mkstate (refresh ls) img, [])
+    else if a =? 2 then
+      let '(v, ls') := read_at ls (pos_of ls b) (Z.to_nat (c mod 5)) in
+      (mkstate ls' img,
+       31 :: match v with Some d => 1 :: enc_col d | None => [0] end)
+    else (st, [])
   else if tag =? 4 then
     (mkstate (upd_level ls (pos_of ls a) (set_enable (negb (b =? 0)))) img, [])
   else if tag =? 5 then
@@ -463,7 +596,8 @@ Definition init_root (n : nat) (cols : list col) : level :=
   let f := mkfilt (repeat None NSLOT) None (repeat true n) (repeat true n)
                   [] (iota 0 n) (repeat true n, iota 0 n) in
   mklevel c f (Z.of_nat n)
-          (map (fun d => Some d) (firstn 3 cols) ++ [None; None]).
+          (map (fun d => Some d) (firstn 3 cols) ++ [None; None])
+          (repeat None NSLOT).
 
 Definition init (n : nat) (cols : list col) : state :=
   mkstate [init_root n cols] (map (fun i => i + 3) (iota 0 n)).
